@@ -31,6 +31,10 @@ def run(v, tier):
     # pretty / binary correspondence: shipped modules and recipe modules, both optimise settings
     mods = [{'name': n} for n in (['propositional', 'substitution', 'small_theory'] + ([] if quick else ['kore_lemmas', 'definedness', 'tautology']))]
     mods += [{'module': m} for m in exprs.edge_modules(rng, 4 if quick else 60) + exprs.graph_modules(rng)]
+    import mmgen
+    for k in range(6 if quick else 40):      # translated Metamath databases (the translator saves / pops / loads around every modus ponens)
+        text, _ = mmgen.database(random.Random(rng.random()), nlemmas=1, zmode=rng.choice(['none', 'all', 'dup']), deep=True)
+        mods.append({'mmtext': text})
     preqs = [dict(m, cmd='prettybin', optimize=o) for m in mods for o in (False, True)]
     pres = lem.run_applications(preqs)
     nb = 0
@@ -39,7 +43,7 @@ def run(v, tier):
             nb += 1
             continue
         for ph in r['phases']:
-            cases.append({'fam': 'prettybin', 'module': q.get('name') or q.get('module'), 'optimize': q['optimize'], 'phase': ph['phase'], 'bytes': ph['bytes'], 'steps': ph['steps']})
+            cases.append({'fam': 'prettybin', 'module': q.get('name') or q.get('module') or q.get('mmtext', '')[-300:], 'optimize': q['optimize'], 'phase': ph['phase'], 'bytes': ph['bytes'], 'steps': ph['steps']})
     v.cov['module_serialisations_compared'] = len(preqs) - nb
     v.cov['modules_not_serialisable'] = nb
     res, _ = funcs.run_blocks(v, 'C19', 'Trace_Render', 'c19-trace', cases, '', bs=4)
